@@ -59,6 +59,10 @@ pub struct NetCase {
     pub net: RawNet,
     pub cfg: Cfg,
     pub queries: Vec<RawQuery>,
+    /// TTL of the records the simulated servers send: 0 = 3600 s everywhere, 1 = NS records have
+    /// TTL 0 (every delegation must be learnt again), 2 = every record has TTL 0
+    #[serde(default)]
+    pub ttl_mode: u8,
 }
 
 fn raw_ns() -> impl Strategy<Value = RawNs> {
@@ -221,7 +225,7 @@ fn raw_query() -> impl Strategy<Value = RawQuery> {
 }
 
 pub fn net_case() -> impl Strategy<Value = NetCase> {
-    (0u64..16, prop_oneof![3 => Just(0u8), 1 => Just(7u8), 1 => Just(150u8)], raw_net(), cfg(), vec(raw_query(), 1..=4)).prop_map(|(os_seed, latency_ms, net, mut cfg, mut queries)| {
+    (0u64..16, prop_oneof![3 => Just(0u8), 1 => Just(7u8), 1 => Just(150u8)], raw_net(), cfg(), vec(raw_query(), 1..=4), prop_oneof![10 => Just(0u8), 1 => Just(1u8), 1 => Just(2u8)]).prop_map(|(os_seed, latency_ms, net, mut cfg, mut queries, ttl_mode)| {
         if net.fan.is_some() {
             // the tree is there to be walked: ask for its root, with room to nest
             queries[0] = RawQuery { target: QTarget::Fan, qt: 0 };
@@ -229,6 +233,6 @@ pub fn net_case() -> impl Strategy<Value = NetCase> {
                 cfg.recursion_limit = cfg.recursion_limit.max(6);
             }
         }
-        NetCase { os_seed, latency_ms, net, cfg, queries }
+        NetCase { os_seed, latency_ms, net, cfg, queries, ttl_mode }
     })
 }
